@@ -51,3 +51,15 @@ theorem validate_eq_true_iff (c : Chain) : validate c = true ↔ IsChain c := by
   | error e => simp
 
 end P
+
+namespace P
+/-- oracle used by the driver: the direct boolean specification on short sequences, the
+    (proved equivalent) validation model on long ones, where the cubic specification is too slow -/
+def isChainO (c : Chain) : Bool := if c.length ≤ 40 then isChainB c else validate c
+
+theorem isChainO_iff (c : Chain) : isChainO c = true ↔ IsChain c := by
+  unfold isChainO
+  split
+  · exact isChainB_iff c
+  · exact validate_eq_true_iff c
+end P
